@@ -380,13 +380,12 @@ func init() {
 		},
 
 		// ------------------------------------------------------------ time
-		"time.Now":        intrNoop,
-		"time.Since":      intrNoop,
-		"time.Until":      intrNoop,
-		"time.Sleep":      intrNoop,
-		"(time.Time).Sub": intrNoop, "(time.Time).After": intrNoop, "(time.Time).Before": intrNoop,
-		"(time.Time).Add":        func(in *Interp, fn *ssa.Function, a []Value, _ ssa.CallInstruction) Value { return a[0] },
-		"(time.Time).IsZero":     intrTrue,
+		"time.Now": intrNoop,
+		// time.Since / time.Until run for real on top of the stubbed clock (Now is the zero
+		// Time), so that a deadline d in the future gives a positive duration and
+		// context.WithTimeout arms its timer instead of being born expired
+		"time.Sleep": intrNoop,
+		// (time.Time arithmetic - Add, Sub, After, Before, IsZero - is executed for real)
 		"(time.Duration).String": func(in *Interp, fn *ssa.Function, a []Value, _ ssa.CallInstruction) Value { return "0s" },
 		"time.AfterFunc": func(in *Interp, fn *ssa.Function, a []Value, _ ssa.CallInstruction) Value {
 			p := new(Value)
